@@ -381,6 +381,11 @@ class GraphNode(HyperNode):
         # Check if bound in inner graph
         if original_param in self._graph.inputs.bound:
             return True
+        # What the inner graph itself reports as required (a binding or default that
+        # only lives outside its selection / entry-point scope does not count) has
+        # no fallback for the graph around it either
+        if original_param in self._graph.inputs.required:
+            return False
         # Check if any inner node has a default
         return any(original_param in inner_node.inputs and inner_node.has_default_for(original_param) for inner_node in self._graph.iter_nodes())
 
